@@ -156,7 +156,9 @@ func (ex *Exec) InvParts(db *SymDB, now *Term) []namedTerm {
 			row := tt.And(
 				ex.notNull(cb, r, "id", "promise_id", "root_promise_id", "recv", "mesg", "timeout", "created_on"),
 				tt.Or(ex1...),
-				tt.Or(tt.PrefixOf(tt.Str("__resume:"), id), tt.PrefixOf(tt.Str("__notify:"), id)),
+				// the id is derived from the row's own promise ids (callbackId / subscriptionId)
+				tt.Or(tt.Eq(id, tt.Concat(tt.Str("__resume:"), cb.c(r, "root_promise_id").v, tt.Str(":"), cb.c(r, "promise_id").v)),
+					tt.PrefixOf(tt.Concat(tt.Str("__notify:"), cb.c(r, "promise_id").v, tt.Str(":")), id)),
 				ex.validMesg(cb.c(r, "mesg").v),
 				tt.Eq(ex.mesgField(cb.c(r, "mesg").v, 1), cb.c(r, "root_promise_id").v),
 			)
@@ -316,6 +318,21 @@ func (ex *Exec) GPartsSince(pre, post *SymDB, since *Term) []namedTerm {
 		}
 		cs = append(cs, tt.SLe(p.nextSort, q.nextSort))
 		out = append(out, namedTerm{"G2:tasks", tt.And(cs...)})
+	}
+	if p := pre.tabs["callbacks"]; p != nil {
+		// G3: a registration is only removed by the completion of its promise
+		q := post.tabs["callbacks"]
+		pr := post.tabs["promises"]
+		var cs []*Term
+		for i := range p.rows {
+			a, b := p.rows[i], q.rows[i]
+			var stillPending []*Term
+			for _, r := range pr.rows {
+				stillPending = append(stillPending, tt.And(r.present, tt.Eq(pr.c(r, "id").v, p.c(a, "promise_id").v), tt.Eq(pr.c(r, "state").v, tt.BV(1, 64))))
+			}
+			cs = append(cs, tt.Implies(tt.And(a.present, tt.Or(stillPending...)), tt.And(b.present, sameCols(tt, p, a, b, allCols(p)...))))
+		}
+		out = append(out, namedTerm{"G3:callbacks", tt.And(cs...)})
 	}
 	if p := pre.tabs["schedules"]; p != nil {
 		q := post.tabs["schedules"]
